@@ -284,7 +284,9 @@ def globalType : P GlobalType := do
   if 1 < mi.toNat then P.fail E.invalidGlobalSectionMutabilityIndicator
   else pure { valueType := vt, mutable := mi.toNat = 1 }
 
-def limits : P Limits := do
+/-- `wasmReadLimits`: `(min, max, shared)` and the out-parameter `hasMax` (the pre-0b91282 source has no such
+    parameter; callers then only look at `max`). -/
+def limits : P (Limits × Bool) := do
   let kind ← byte E.invalidLimitKind
   let min ← u32 E.invalidLimitMinimum
   match Reader.limitKinds.find? (fun r => r.1 = kind.toNat) with
@@ -292,19 +294,29 @@ def limits : P Limits := do
   | some (_, hasMax, shared) =>
     if hasMax then do
       let max ← u32 E.invalidLimitMaximum
-      pure { min := min, max := max, shared := shared }
-    else pure { min := min, max := 0, shared := shared }
+      pure ({ min := min, max := max, shared := shared }, true)
+    else pure ({ min := min, max := 0, shared := shared }, false)
+
+/-- The condition under which the default maximum replaces the decoded one (regenerated rule name). -/
+def useDefaultMax (rule : String) (dflt : Nat) (l : Limits) (hasMax : Bool) : Bool :=
+  match rule with
+  | "maxIsZero" => l.max = 0
+  | "noMax" => !hasMax
+  | "noMaxOrTooLarge" => !hasMax || decide (dflt < l.max)
+  | _ => false
 
 def memoryType : P Limits := do
-  let l ← limits
-  pure (if l.max = 0 then { l with max := Reader.memoryDefaultMax } else l)
+  let (l, hasMax) ← limits
+  pure (if useDefaultMax Reader.memoryMaxRule Reader.memoryDefaultMax l hasMax
+        then { l with max := Reader.memoryDefaultMax } else l)
 
 def tableType : P Limits := do
   let t ← byte E.invalidTableSectionTableType
   if t.toNat ≠ Reader.tableTypeFuncRef then P.fail E.invalidTableSectionTableType
   else do
-    let l ← limits
-    pure (if l.max = 0 then { l with max := Reader.tableDefaultMax } else l)
+    let (l, hasMax) ← limits
+    pure (if useDefaultMax Reader.tableMaxRule Reader.tableDefaultMax l hasMax
+          then { l with max := Reader.tableDefaultMax } else l)
 
 /-! ### imports (reader.c:644-1006) -/
 
@@ -524,14 +536,15 @@ def dataCountSection (m : RawModule) : P RawModule := do
 /-- The bytes of an ASCII C string literal (the two special section names are ASCII). -/
 def strBytes (s : String) : Bytes := s.toList.map (fun c => UInt8.ofNat c.toNat)
 
-/-- `wasmFunctionNamesRemoveDuplicates` on the first `len` entries: `strcmp` on a NULL entry is undefined as
-    soon as the comparator runs (two or more entries); names occurring more than once are cleared. -/
+/-- `wasmFunctionNamesRemoveDuplicates` on the first `len` entries: names occurring more than once are
+    cleared.  Without the NULL guards of /repo b750457 (`Gen.Reader.functionNamesNullGuard = false`), `strcmp` on
+    a NULL entry is undefined as soon as the comparator runs (two or more entries). -/
 def removeDuplicates (names : List (Option Bytes)) (len : Nat) : Res (List (Option Bytes)) :=
   let used := names.take len
   if len < 2 then .ok names
-  else if used.any Option.isNone then .ub .nullFunctionName
+  else if !Reader.functionNamesNullGuard && used.any Option.isNone then .ub .nullFunctionName
   else
-    .ok ((used.map fun n => if (used.filter (· = n)).length > 1 then none else n) ++ names.drop len)
+    .ok ((used.map fun n => if n.isSome ∧ (used.filter (· = n)).length > 1 then none else n) ++ names.drop len)
 
 /-- One `(index, name)` pair of the function-names subsection. -/
 def funcNameEntry (functionCount : Nat) (names : List (Option Bytes)) : P (List (Option Bytes)) := do
